@@ -990,24 +990,39 @@ func (x *svcEnv) step(ws []string) (out string) {
 		return o
 	}
 	switch ws[0] {
-	case "rpc":
+	case "rpc", "emb":
 		pre := x.digest(x.a)
-		s, e := x.rpc(ws[1:])
+		// every request runs under a watchdog: the script only issues requests that the lock model says cannot wait (wouldBlock);
+		// one that does not return wedges the case (the rest is skipped) instead of hanging the check
+		type res struct{ s, e string }
+		done := make(chan res, 1)
+		go func() {
+			defer func() {
+				if p := recover(); p != nil {
+					done <- res{"panic:" + strings.ReplaceAll(fmt.Sprint(p), " ", "_"), "-"}
+				}
+			}()
+			var r res
+			if ws[0] == "rpc" {
+				r.s, r.e = x.rpc(ws[1:])
+			} else {
+				r.s, r.e = x.emb(ws[1:])
+			}
+			done <- r
+		}()
+		var r res
+		select {
+		case r = <-done:
+		case <-time.After(patience(12 * time.Second)):
+			x.wedged = true
+			return "svc=err:hung emb=- (the request did not return within 12 s although nothing it may wait for is held)"
+		}
 		svcQuiesce(x.a)
 		svcQuiesce(x.b)
-		if s == "blocked" {
+		if r.s == "blocked" {
 			return "blocked"
 		}
-		return line(s, e, pre)
-	case "emb":
-		pre := x.digest(x.a)
-		s, e := x.emb(ws[1:])
-		svcQuiesce(x.a)
-		svcQuiesce(x.b)
-		if s == "blocked" {
-			return "blocked"
-		}
-		return line(s, e, pre)
+		return line(r.s, r.e, pre)
 	case "apply":
 		pre := x.digest(x.a)
 		t, _ := strconv.Atoi(ws[1])
